@@ -387,7 +387,11 @@ def gen_distance(rng, flat, sign=None):
     size = input_size(flat)
     lo, hi = -6.0, 3.0
     u = rng.random()
-    if u < 0.6:
+    cs = all_coords(flat)
+    ext = math.hypot(max(c[0] for c in cs) - min(c[0] for c in cs), max(c[1] for c in cs) - min(c[1] for c in cs)) if cs else 0.0
+    if u < 0.1 and ext > 0 and ext * 200 <= size * 1e3:
+        f = ext * 10 ** rng.uniform(0.3, 2.2) / size   # d much larger than the extent: closing segments, input simplification
+    elif u < 0.6:
         f = 10 ** rng.uniform(-2.5, 0.5)           # the range where joins, caps and holes interact
     else:
         f = 10 ** rng.uniform(lo, hi)
@@ -563,6 +567,22 @@ def classify_inside(c, flat, w, only_polys=False):
     return ('F1' if is_f1 else None), info
 
 
+def artifact_hole(res, flat, w, d):
+    """K6 key: the witness lies in a hole of the result whose diameter is <= 0.05 d while d exceeds the shortest input segment
+       (inside turns whose offset segments do not meet get 'closing segments'; a sliver between them survives as a hole)"""
+    gap = min_vertex_gap(flat)
+    if not (gap < d):
+        return None
+    for p in res.get('r', {}).get('polys', []):
+        for h in p[1:]:
+            if in_ring_f(w, h):
+                xs = [v[0] for v in h]; ys = [v[1] for v in h]
+                diam = math.hypot(max(xs) - min(xs), max(ys) - min(ys))
+                if diam <= 0.05 * d:
+                    return dict(vertices=len(h) - 1, diameter_over_d=diam / d, hole=[[HEX(x), HEX(y)] for x, y in h][:12])
+    return None
+
+
 SIMPLIFY_REL = 0.0101       # K2: deleting a vertex closer than d/100 to its predecessor moves the offset curve by less than d/100
 
 
@@ -653,6 +673,10 @@ def judge_buffer(ctx, res, stream):
                              dict(base, witness=[HEX(w[0]), HEX(w[1])], expected='result inside the polygon', why='location outside the input polygon is in the result')))
             continue
         fid, info = classify_inside(c, flat, w, only_polys)
+        if fid is None and d > 0:
+            hole = artifact_hole(res, flat, w, d)
+            if hole is not None:
+                fid = 'C06-K6'; info = dict(info, artifact_hole=hole)
         msg = ('location (%r, %r) at distance %.9f |d| <= (1-e)|d| (e = %.6f) from the input%s is %s the result'
                % (w[0], w[1], info['rel_dist'], e_float(c['q']), ' boundary' if d < 0 else '', 'outside' if d > 0 else 'inside'))
         rp = dict(base, witness=[HEX(w[0]), HEX(w[1])], witness_tag=w[2] if len(w) > 2 else '', classification=info,
